@@ -628,7 +628,7 @@ func (e *EnumType) Set(name string, value int64) error {
 	}
 	e.ToString[value] = name
 	e.ToInt[name] = value
-	if value >= e.last {
+	if len(e.ToInt) == 1 || value >= e.last {
 		e.last = value
 	}
 	return nil
